@@ -12,7 +12,7 @@ cp /verif/known_findings.json $w/verif/
 cp /tmp/mut/$f/$n.go $w/repo/$f.go
 cd $w/repo
 if ! go build ./... >/dev/null 2>&1; then echo "$f/$n nocompile $desc"; cd /; rm -rf $w; exit 0; fi
-if ! go vet . >/dev/null 2>&1; then echo "$f/$n novet $desc"; cd /; rm -rf $w; exit 0; fi
+if [ -z "$SKIPVET" ] && ! go vet . >/dev/null 2>&1; then echo "$f/$n novet $desc"; cd /; rm -rf $w; exit 0; fi
 out=$(CBGP_REPO=$w/repo CBGP_VERIF=$w/verif ${BIN:-/verif/bin/cbgpcheck} check all 2>&1)
 fired=$(echo "$out" | grep -o 'VIOLATION property=C[0-9]*' | sed 's/VIOLATION property=//' | tr '\n' ',')
 if [ -n "$fired" ]; then echo "$f/$n checker[$fired] $desc"; cd /; rm -rf $w; exit 0; fi
